@@ -32,6 +32,7 @@ def check(repo, rep, tier):
     # each list element is an immutable, independent copy (C13)
     fr = rep.run(rs.rule_store_snapshot, em, rep, 'C07.S1')
     rep.run(rs.rule_fresh_per_use, em, rep, 'C07.S2', fr)
+    rep.run(rs.rule_copier_map_shared, em, rep, 'C07.S6', fr)
     rep.run(rx.rule_facts_immutable, em, rep, 'C07.S4')
     rep.run(rx.rule_store_shadows_follow, em, rep, 'C07.S5')
     rep.run(rq.rule_facts_first, em, rep, 'C07.Q1')
